@@ -64,6 +64,7 @@ def conc_cfg(r):
     svcs["tctx"] = {"type": "*T", "scope": "contextual", "getter": "GetTctx"}
     svcs["tns"] = {"type": "*T", "scope": "non_shared", "getter": "GetTns"}
     svcs["vsh"] = {"value": "&MyStruct{}", "scope": "shared", "getter": "GetVsh", "type": "*T"}
+    svcs["vns"] = {"value": "&MyStruct{}", "scope": "non_shared", "getter": "GetVns", "type": "*T"}      # (a bare pointer TYPE yields nil: no identity to observe)
     # repair the scope rule: shared must not depend on contextual -> drop offending references
     ctxl = {n for n, (sc, _) in scopes.items() if sc == "contextual"}
     for n, sv in svcs.items():
@@ -75,6 +76,40 @@ def conc_cfg(r):
     if decs:
         cfg["decorators"] = decs
     return cfg, scopes
+
+
+_EFF = {}
+
+
+def eff_scope(cfg, name):
+    """declared scope, or for a service without one: contextual iff it transitively depends (arguments, fields, calls, tags, decorators of
+    its tags) on a service declared contextual, shared otherwise"""
+    key = (id(cfg), name)
+    if key not in _EFF:
+        from vlib import spec as _sp
+        sv = (cfg.get("services") or {}).get(name) or {}
+        sc = sv.get("scope")
+        if sc is None and not sv.get("todo"):
+            edges = _sp.Deps(cfg).svc_edges()
+            sc = "contextual" if any((cfg["services"].get(x) or {}).get("scope") == "contextual" for x in _sp.reach(edges, name) if x != name) else "shared"
+        _EFF[key] = sc
+    return _EFF[key]
+
+
+def inferred_cfgs():
+    """services WITHOUT a declared scope that are contextual only by inference: through an argument, a field, a call, a tag request, and -
+    for a leaf without any argument - only through the decorator of a tag they carry"""
+    base = {"meta": {"functions": {"fa": "GetEnv", "fb": "Lookup", "fc": "Fn"}}, "parameters": {"pa": "%fa(\"a\")%", "pb": "%fb(\"b\")%", "pc": "%fc(\"c\")%"}}
+    T = {"type": "*T"}
+    svcs = {"tx": dict({"constructor": "NewB", "scope": "contextual", "getter": "GetTx", "tags": ["txs"]}, **T),
+            "leaf": dict({"constructor": "NewA", "tags": ["dd"], "getter": "GetLeaf"}, **T),                      # no argument at all: contextual through the decorator only
+            "viaarg": dict({"constructor": "MakeC", "arguments": ["@tx"], "getter": "GetViaarg"}, **T),
+            "viatag": dict({"constructor": "Build", "arguments": ["!tagged txs"], "getter": "GetViatag"}, **T),
+            "viafield": dict({"constructor": "Provide", "fields": {"Dep": "@tx"}, "getter": "GetViafield"}, **T),
+            "vialeaf": dict({"constructor": "New", "arguments": ["@leaf"], "getter": "GetVialeaf"}, **T),
+            "plainleaf": dict({"value": "&MyStruct{}", "getter": "GetPlainleaf"}, **T)}
+    cfg = dict(base, services=svcs, decorators=[{"tag": "dd", "decorator": "Decorate", "arguments": ["@tx"]}])
+    return [cfg]
 
 
 def bait_cfgs():
@@ -127,6 +162,12 @@ def run(tier, seed, replay):
         specs.append(sp)
         metas.append({a: b for a, b in scopes.items() if a != "__solo__"})
         sp["solo"] = (scopes.get("__solo__") or (None, None))[0]
+    for cfg in inferred_cfgs():
+        sp = common.mk_spec(len(specs), [cfg], keep_out=True)
+        sp["cfg"] = cfg
+        sp["what"] = ["inferred-contextual"]
+        specs.append(sp)
+        metas.append({n: (sv.get("scope"), sv.get("constructor")) for n, sv in cfg["services"].items()})
     nbait = 0
     for cfg in bait_cfgs():
         sp = common.mk_spec(len(specs), [cfg], keep_out=True)
@@ -265,7 +306,7 @@ def run(tier, seed, replay):
                 for g in lines[1:]:
                     for o in g["obs"]:
                         if o["op"] == "getctx" and o["serial"] not in ("", "0"):
-                            sc = (cfg["services"].get(o["name"]) or {}).get("scope")
+                            sc = eff_scope(cfg, o["name"])
                             if sc == "contextual":
                                 key = (o["name"], o["serial"])
                                 if key in owner and owner[key] != g.get("ctx", g["g"]):
@@ -295,7 +336,7 @@ def run(tier, seed, replay):
                 per_ctx = {}
                 for g in lines[1:]:
                     for o in g["obs"]:
-                        if o["op"] == "getctx" and (cfg["services"].get(o["name"]) or {}).get("scope") == "contextual" and o["serial"] not in ("", "0"):
+                        if o["op"] == "getctx" and eff_scope(cfg, o["name"]) == "contextual" and o["serial"] not in ("", "0"):
                             per_ctx.setdefault((g.get("ctx", g["g"]), o["name"]), set()).add(o["serial"])
                 for (cx_, nm_), ss in per_ctx.items():
                     if len(ss) > 1:
@@ -307,7 +348,7 @@ def run(tier, seed, replay):
     finally:
         b.close()
     out.coverage.update({
-        "evaluations": evals, "distinct_nontrivial": max(2, len(nontrivial)), "programs": dist["programs"],
+        "evaluations": evals, "distinct_nontrivial": len(nontrivial), "programs": dist["programs"],
         "rule": "%d accepted configurations (each shared/contextual service with its own constructor, each parameter with its own function, pointer-valued contextual value services) x %d runs of 24 goroutines x 2 rounds over Get / GetInContext / getters / GetParam / GetTaggedBy in per-goroutine random order, built with -race; invocation counters and per-context instance serials; non-trivial = distinct counter vector" % (n, runs),
         "distribution": dist, "samples": samples or [{"note": "none"}],
     })
